@@ -609,6 +609,40 @@ func (r *ruler) atonRule() {
 	if n < 2 {
 		r.s.Bad("V19", r.key("ATON", "success paths"), r.pos, fmt.Sprintf("aton must have an integer and a float success path, found %d", n))
 	}
+	// the conversion error is what is left when both conversions have refused
+	// the text: a text rejected before they were asked (a format filter, a
+	// length limit) makes aton(toa(n)) fail for numbers toa can print -- three
+	// digit exponents, for one (seed C17-R)
+	nConv := 0
+	var early *Path
+	for _, pa := range r.m.Paths["ATON"] {
+		if pa.End != "return" || len(pa.Ret) != 2 || absint.Key(pa.Ret[1]) != "global vm.ErrConversion" {
+			continue
+		}
+		nConv++
+		ints, floats := 0, 0
+		for _, ev := range pa.Events {
+			if ev.Kind == "call" && strings.HasPrefix(ev.Fn, "strconv.") {
+				if strings.Contains(ev.Fn, "ParseFloat") {
+					floats++
+				} else {
+					ints++
+				}
+			}
+		}
+		if (ints == 0 || floats == 0) && early == nil {
+			early = pa
+		}
+	}
+	key := r.key("ATON", "a conversion error only after both conversions refused the text")
+	switch {
+	case early != nil:
+		r.s.Bad("V19", key, r.ppos(early), "aton reports a conversion error for a text it has not handed to both the integer and the float conversion: whatever filter decides that, it refuses texts the conversions accept, and toa prints some of them", early.Describe()...)
+	case nConv == 0:
+		r.s.Bad("V19", key, r.pos, "aton has no conversion-error exit")
+	default:
+		r.s.OK("V19", key, r.pos, fmt.Sprintf("%d conversion-error exit(s), each after the integer and the float conversion failed", nConv))
+	}
 }
 
 // boundsRule (V20): every index or slice expression a handler evaluates on a
